@@ -42,6 +42,8 @@ def check(run):
     from ..cachekey import check_caches
     check_caches(run, [m for k, m in prog.modules.items() if k.startswith('cherab.tools.inversions')], 'C11-K', prog=prog)
     _inputs_kept(run, prog)
+    run.include('C20', {'cherab/tools/inversions/admt_utils.py'},
+                'the regularisation matrix L of |Wx-b|^2 + alpha^2 |Lx|^2 is built by generate_derivative_operators / calculate_admt')
 
 
 def _svd(run, prog):
